@@ -94,12 +94,14 @@ def validate_kill_traces(obs, by, tag):
         rows = kill_trace_rows(o)
         if not rows or len(rows) < 4 or sum(1 for r in rows if r["ev"] == "call.kill") > 5:
             continue
-        groups.setdefault((MODEL_BEHAVIOUR[c["behaviour"]], c.get("delay_ms", 0)), []).append((name, rows))
+        # a reattached client learns of the exit from a pid poll once a second
+        lag = 1000 if c["launch"] in ("reattach", "foreign") else 0
+        groups.setdefault((MODEL_BEHAVIOUR[c["behaviour"]], c.get("delay_ms", 0), lag), []).append((name, rows))
         nev += len(rows)
     ok_total, bad = 0, {}
-    for (beh, delay), packed in sorted(groups.items()):
-        ok, rejected, _ = vlib.validate_packed("TraceKillImpl", "trace_killimpl.cfg", packed, "%s.ktr.%s%d" % (tag, beh, delay),
-                                               header={"ev": "header", "behaviour": beh, "delay": delay, "t": 0})
+    for (beh, delay, lag), packed in sorted(groups.items()):
+        ok, rejected, _ = vlib.validate_packed("TraceKillImpl", "trace_killimpl.cfg", packed, "%s.ktr.%s%d.%d" % (tag, beh, delay, lag),
+                                               header={"ev": "header", "behaviour": beh, "delay": delay, "lag": lag, "t": 0})
         ok_total += ok
         for n, ev, detail in rejected:
             bad.setdefault(n, (ev, detail))
@@ -117,7 +119,7 @@ def kill_trace_selftest(obs_list, by, tag):
             rows = kill_trace_rows(o)
             if not rows or not any(r["ev"] == "client.kill.graceful" for r in rows):
                 continue
-            hdr = {"ev": "header", "behaviour": MODEL_BEHAVIOUR[c["behaviour"]], "delay": c.get("delay_ms", 0), "t": 0}
+            hdr = {"ev": "header", "behaviour": MODEL_BEHAVIOUR[c["behaviour"]], "delay": c.get("delay_ms", 0), "lag": 0, "t": 0}
             path = os.path.join(vlib.sub("%s.kst.%s" % (tag, want_beh)), "good.ndjson")
             vlib.write_ndjson(path, [hdr] + rows)
             if not vlib.validate_trace("TraceKillImpl", "trace_killimpl.cfg", path)["accepted"]:
